@@ -53,6 +53,32 @@ def iso_stage(ctx, zr, name, eng, policy, args, stats, samples, expect=None):
     stats["runs"].append({"stage": name, **{k: summ[k] for k in summ if k not in ("driver", "by_op")}})
 
 
+def idx_stage(ctx, zr, name, eng, policy, args, stats, samples):
+    """Secondary hash indexes with table-prefix neighbours (idxsim + ZIndexTrace)."""
+    summ, files = S.drive(ctx, zr, "idxsim", name, ["-eng", eng, "-policy", policy, "-seed", str(ctx.seed)] + args, parts=2)
+    if summ is None:
+        return
+    for f, events, mm in S.validate(ctx, "ZIndexTrace", "ZIndexTrace.cfg", files, name):
+        stats["index_events"] += len(events)
+        stats["index_searches"] += sum(1 for e in events if e.get("ev") == "q")
+        stats["index_worlds"] += sum(1 for e in events if e.get("ev") == "reset")
+        if len(samples) < 4 and any(e.get("ev") == "q" and e["res"] for e in events):
+            qs = [e for e in events if e.get("ev") == "q" and e["res"]][:2]
+            samples.append({"index": name, "tables": events[0].get("tabs"), "excerpt": qs})
+        for line, what in mm:
+            s0, seg = V.segment_of(events, line)
+            e = seg[-1]
+            sig = {"driver": "idxsim", "engine": eng, "policy": policy, "event": e.get("ev"),
+                   "class": "error" if e.get("err") else "foreign-key" if -1 in e.get("res", []) else "wrong-result"}
+            txt = "%s/%s: %s line %d: tables %s; observed %s; ZIndex expects %s" % (
+                eng, policy, os.path.basename(f), line, json.dumps(seg[0].get("tabs")), json.dumps(e, sort_keys=True)[:300], what[:300])
+            segf = os.path.join(ctx.sub("fail"), "%s-%s-%d.ndjson" % (name, os.path.basename(f), line))
+            V.write_ndjson(segf, seg)
+            stats["mismatches"] += 1
+            V.report_failure(ctx, sig, txt, files=[segf], script={"idxsim": args, "engine": eng, "policy": policy})
+    stats["runs"].append({"stage": name, **{k: summ[k] for k in summ if k != "driver"}})
+
+
 def codec_stage(ctx, zr, stats, samples):
     q = ctx.quick()
     args = ["-seed", str(ctx.seed)] + (["-maxlen", "6", "-bmax", "9", "-pairs", "2000"] if q else
@@ -160,10 +186,11 @@ def run(ctx):
     q = ctx.quick()
     # (A) the model
     # explicit heaps: TLC's default (a quarter of the RAM per JVM) gets JVMs killed on a busy box
-    r1 = V.tlc(ctx, "MC_ZIsolate", "MC_ZIsolate.cfg", timeout=600, workers=8, tag="mc", heap="6g")
+    mcfg = "MC_ZIsolate_quick.cfg" if q else "MC_ZIsolate.cfg"      # quick: 2 tables x 1 key x 8 types, thorough: 2 x 2 x 8
+    r1 = V.tlc(ctx, "MC_ZIsolate", mcfg, timeout=600, workers=8, tag="mc", heap="6g")
     if not r1.ok and not r1.violated and not r1.timed_out:
         ctx.log("model run ended without a verdict (rc=%s); retrying once" % r1.rc)
-        r1 = V.tlc(ctx, "MC_ZIsolate", "MC_ZIsolate.cfg", timeout=600, workers=8, tag="mc2", heap="6g")
+        r1 = V.tlc(ctx, "MC_ZIsolate", mcfg, timeout=600, workers=8, tag="mc2", heap="6g")
     V.require_model_ok(ctx, r1, "MC_ZIsolate")
     ctx.log("model: %d distinct states, %d transitions" % (r1.distinct, r1.generated))
     mutants = {}
@@ -174,10 +201,11 @@ def run(ctx):
             raise V.Inconclusive("spec mutant %s was not refuted: the invariants do not bite" % m)
 
     stats = dict(events=0, segments=0, commands=0, tuple_dumps_compared=0, by_op={}, mismatches=0, runs=[],
-                 codec_lines=0, codec_cases=0, codec_pairs=0, codec_ranges=0, codec_distinct=0)
+                 codec_lines=0, codec_cases=0, codec_pairs=0, codec_ranges=0, codec_distinct=0,
+                 index_events=0, index_searches=0, index_worlds=0)
     samples = []
-    seg, ln = ("24", "70") if q else ("200", "80")
-    segs = "12" if q else "100"
+    seg, ln = ("20", "70") if q else ("200", "80")
+    segs = "10" if q else "100"
     # (B i) general corpora (the trigger of the recorded open finding is kept out)
     iso_stage(ctx, zr, "pebble-local", "pebble", "local", ["-segments", seg, "-len", ln, "-bulk", "60"], stats, samples)
     iso_stage(ctx, zr, "pebble-compact", "pebble", "compact", ["-segments", seg, "-len", ln, "-long", "8000"], stats, samples)
@@ -191,8 +219,16 @@ def run(ctx):
     # \xff / U+FFFD / \xfe a whole-table delete must be refused and change nothing, or delete exactly its table
     iso_stage(ctx, zr, "deltable-nonutf8-strict", "pebble", "local", ["-segments", "4", "-len", "60", "-tables", "8"],
               stats, samples)
+    iso_stage(ctx, zr, "isolate-deltable-ext", "pebble", "local", ["-segments", "4", "-len", "60", "-deltable-ext"], stats, samples,
+              expect="C12-deltable-skips-bitmap-json-hll")
     iso_stage(ctx, zr, "isolate-mem-expiry", "mem", "local", ["-segments", "2", "-len", "20", "-burst"], stats, samples,
               expect="C12-mem-expiry-pass-deadlock")
+    # secondary hash indexes: DDL through schema-change proposals, build on existing data (the store's
+    # asynchronous loop, polled), incremental writes, searches; tables whose names are prefixes of each other
+    nidx = "6" if q else "60"
+    idx_stage(ctx, zr, "index-pebble-local", "pebble", "local", ["-segments", nidx], stats, samples)
+    idx_stage(ctx, zr, "index-pebble-compact", "pebble", "compact", ["-segments", nidx], stats, samples)
+    idx_stage(ctx, zr, "index-mem-local", "mem", "local", ["-segments", nidx], stats, samples)
     # (B ii) codec and key encoders
     codec_stage(ctx, zr, stats, samples)
     if not q:
@@ -203,9 +239,9 @@ def run(ctx):
         states=r1.distinct, transitions=r1.generated,
         traces_validated_against_impl=stats["segments"],
         samples=samples or [{"note": "no sample"}],
-        model_run=dict(cfg="MC_ZIsolate.cfg", **r1.summary()), spec_mutants_refuted=mutants,
+        model_run=dict(cfg=mcfg, **r1.summary()), spec_mutants_refuted=mutants,
         commands_validated=stats["commands"], tuple_dumps_compared=stats["tuple_dumps_compared"],
-        commands_by_op=stats["by_op"], mismatching_segments=stats["mismatches"], driver_runs=stats["runs"],
+        commands_by_op=stats["by_op"], index_searches_validated=stats["index_searches"], index_worlds=stats["index_worlds"], mismatching_segments=stats["mismatches"], driver_runs=stats["runs"],
         selftest=stats.get("selftest"),
         codec=dict(level="exploration", evaluations=stats["codec_cases"] + stats["codec_pairs"],
                    distinct_nontrivial=stats["codec_distinct"],
@@ -217,7 +253,7 @@ def run(ctx):
                    ranges_declared=stats["codec_ranges"], random_pairs=stats["codec_pairs"],
                    families=stats.get("codec_families"), summary=stats.get("codec_summary"),
                    selftest_accepted_wrongly=stats.get("codec_selftest_accepted_wrongly")),
-        rule="after every command the full enumeration of every (type, table, key) tuple of the world (60 tuples) and "
+        rule="after every command the full enumeration of every (type, table, key) tuple of the world (96 tuples: 8 types x 3 tables x 4 keys) and "
              "the reply equal ZIsolate; TLC (ZIsolateTrace) decides",
         checker_cmd="tlc -config ZIsolateTrace.cfg ZIsolateTrace / -config ZCodecOrdTrace.cfg ZCodecOrdTrace (ZR_TRACE=<part>)",
     )
@@ -229,8 +265,12 @@ def run(ctx):
         "of at most 3 sub-keys; the > 5 000-element DeleteRange branch of the clears is reached by bulk episodes "
         "(5 002 unlogged extra elements added and cleared within one logged clear; local deletion only, valid-UTF-8 "
         "short names only)",
-        "bitmap, JSON, HyperLogLog and secondary-index data are not part of the command mix (bitmap and index keys are "
-        "part of the encoder enumeration)",
+        "bitmap (SETBITV2 / BITCLEAR), JSON (JSON.SET / JSON.DEL of a whole document) and HyperLogLog (PFADD / DEL, read "
+        "back with PFCOUNT) tuples are part of the command mix; bitmap and HLL tuples use key names of their own because "
+        "they share the kv keyspace by design; replies of PFADD and of DEL on an HLL key are not modelled (C07 write-cache "
+        "finding); secondary hash indexes have a stage of their own (idxsim / ZIndexTrace: string index on one field, equality "
+        "searches, DDL add / build-on-existing-data / ready / delete, hset / hdel / hclear while ready; no writes while an index is "
+        "being built; JSON indexes, unique and numeric indexes and range conditions are not driven)",
         "whole-table delete is checked with DeleteTableRange.CheckValid and built exactly like KVNode.DeleteRange builds its "
         "proposal, then applied through the state machine; a refused delete (reply -998) must change nothing",
         "mem engine: prefix-free name pools only (recorded C20 finding on radix iterators), no expiry pass (recorded finding)",
